@@ -1,14 +1,16 @@
 (* Kernel2/ReorderExact.v -- reorder_incident_halffaces and cache exactness (C01 meets C09).
    (R1) reorder_incident_halffaces e s differs from s at most in inc_hfs at the two slots 2e and 2e+1.
-   (R2) if the halfedge->halfface cache is exact and duplicate-free at 2e and 2e+1 (Kernel/Closure.v ebu_ok), the
-        halfface->cell cache is exact (fbu_ok), live cells reference live faces, and adjacency across edge e is
-        an involution on the halffaces around e (true when every live cell is closed, closed_cell_b), then the new
-        lists at 2e and 2e+1 are PERMUTATIONS of the old ones: reorder never loses or duplicates a halfface.
-        Without the involution hypothesis this is FALSE, also in reachable states:
-        reorder_permutation_refuted (two cells, accepted by add_cell without topology check, each with three
-        halffaces at one edge).
-   (R3) the bundle of hypotheses is preserved by reorder_incident_halffaces e and by reorder_edges es, for any e, es;
-        in particular ebu_ok, fbu_ok, vbu_ok. *)
+   (R2) LOCAL FORM (reorder_permutes_local): if the list L at 2e is duplicate-free, closed under the forward and the
+        backward walk step (walk_closed), the two steps are inverse to each other on L (adj_involutive_on) and the
+        list at 2e+1 is a permutation of map opp L, then the new lists are PERMUTATIONS of the old ones.
+        walk_closed follows from what the cells the walk READS contribute to the edge (walk_closed_of_cells), or from
+        completeness of L (cells_feed_slot_of_complete); the involution follows from closedness of the read cells
+        (adj_involutive_of_read_closed).  GLOBAL FORM (reorder_permutes): ebu_ok-exact duplicate-free slots, fbu_ok,
+        live cells closed (closed_cell_b) and referencing live faces.
+        Without closed cells this is FALSE, also in reachable states: reorder_permutation_refuted (two cells, accepted
+        by add_cell without topology check, each with three halffaces at one edge).
+   (R3) the bundle reorder_inv is preserved by reorder_incident_halffaces e and by reorder_edges es, for any e, es;
+        in particular ebu_ok, fbu_ok, vbu_ok (reorder_edges_keeps_caches_exact). *)
 From Coq Require Import ZArith Lia Bool Arith List ZifyNat ZifyBool Permutation.
 From OVM Require Import Kernel.State Kernel.Ops Kernel.Mirror Kernel.Closure Kernel.InvB
                         Kernel2.LookupModel Kernel2.ListAux Kernel2.AdjacentProofs Kernel2.RotationProofs.
@@ -162,9 +164,14 @@ Definition slot_exact (s : mesh) (h : nat) : Prop :=
 
 (* adjacency across the edge is an involution on the halffaces around halfedge h: walking forward and then
    backward (or backward and then forward) returns to the start *)
-Definition adj_involutive_at (s : mesh) (h : nat) : Prop :=
-  (forall x y, In x (hfs_at s h) -> fwd_link s h x y -> bwd_link s h x y) /\
-  (forall x y, In y (hfs_at s h) -> bwd_link s h x y -> fwd_link s h x y).
+Definition adj_involutive_on (s : mesh) (h : nat) (L : list nat) : Prop :=
+  (forall x y, In x L -> fwd_link s h x y -> bwd_link s h x y) /\
+  (forall x y, In y L -> bwd_link s h x y -> fwd_link s h x y).
+Definition adj_involutive_at (s : mesh) (h : nat) : Prop := adj_involutive_on s h (hfs_at s h).
+
+(* the list is closed under the two walk steps wherever they are defined *)
+Definition walk_closed (s : mesh) (h : nat) (L : list nat) : Prop :=
+  (forall x y, In x L -> fwd_link s h x y -> In y L) /\ (forall x y, In y L -> bwd_link s h x y -> In x L).
 
 Definition live_cells_closed (s : mesh) : Prop :=
   forall c, c < nc s -> c_deleted s c = false -> closed_cell s c.
@@ -182,52 +189,108 @@ Proof. unfold hf_is_open. destruct (cell_of s x) as [c|]; [eauto|discriminate]. 
 Lemma div2_lt_bound x n : x / 2 < n -> x < 2 * n.
 Proof. lia. Qed.
 
-(* closed live cells give the involution *)
-Lemma adj_involutive_of_closed s h :
-  fbu s = true -> fbu_ok s -> live_cells_closed s -> slot_exact s h -> adj_involutive_at s h.
+(* ---- local hypotheses: only what the walk reads ---- *)
+
+(* (a) the halfface->cell cache is sound where the walk reads it (at in-range halffaces that are not open): the halfface
+   belongs to the cell it is mapped to, that cell is closed, and it references live faces.  Nothing is asked of
+   cells no cache entry points to (e.g. a dying cell whose entries have been cleared already). *)
+Definition cell_read_ok (s : mesh) : Prop :=
+  forall x c, x / 2 < nf s -> cell_of s x = Some c -> c_deleted s c = false ->
+    In x (cell_at s c) /\ closed_cell s c /\
+    (forall hf, In hf (cell_at s c) -> hf / 2 < nf s /\ f_deleted s (hf / 2) = false).
+
+(* (b) about the list L itself *)
+Definition slot_sound (s : mesh) (h : nat) (L : list nat) : Prop :=
+  forall x, In x L -> x / 2 < nf s /\ In h (halfface s x).
+Definition slot_complete (s : mesh) (h : nat) (L : list nat) : Prop :=
+  forall x, x / 2 < nf s -> f_deleted s (x / 2) = false -> In h (halfface s x) -> In x L.
+
+(* closure under the walk steps FOLLOWS from completeness of the list (every live halfface containing h is in L) *)
+Lemma walk_closed_of_complete s h L :
+  cell_read_ok s -> slot_sound s h L -> slot_complete s h L -> walk_closed s h L.
 Proof.
-  intros Hf Hfb Hcl [_ Hex]. split.
-  - intros x y Hx F. apply Hex in Hx. destruct Hx as [Hlt [_ Hh]]. destruct F as [O A].
-    destruct (not_open_cell s x O) as [c [Hc Hd]].
-    destruct (proj1 (Hfb Hf x (div2_lt_bound _ _ Hlt) c) Hc) as [Hcn [_ Hin]].
-    exact (bwd_of_fwd_closed s h x y c (conj O A) Hc (Hcl c Hcn Hd) Hin Hh).
-  - intros x y Hy [O A]. apply Hex in Hy. destruct Hy as [Hlt [_ Hh]].
+  intros Hcr Hs Hc. split.
+  - intros x y Hx [O A]. destruct (Hs x Hx) as [Hlt Hh].
+    destruct (not_open_cell s x O) as [c [Hcx Hd]]. destruct (Hcr x c Hlt Hcx Hd) as [_ [_ Hlive]].
+    destruct (adjacent_result_spec s x h (opp y) A) as [c' [he1 [Hc' [Hr [Hin [_ [_ Hopp]]]]]]].
+    rewrite Hcx in Hc'. inversion Hc'; subst c'.
+    rewrite (resolve_he_member s x h Hh) in Hr. inversion Hr; subst he1.
+    destruct (Hlive (opp y) Hin) as [L1 L2]. rewrite opp_div2 in L1, L2.
+    apply Hc; [exact L1|exact L2|]. apply In_halfface_opp. exact Hopp.
+  - intros x y Hy [O A]. destruct (Hs y Hy) as [Hlt Hh].
+    destruct (not_open_cell s (opp y) O) as [c [Hcy Hd]].
+    assert (Hlt' : opp y / 2 < nf s) by (rewrite opp_div2; exact Hlt).
+    destruct (Hcr (opp y) c Hlt' Hcy Hd) as [_ [_ Hlive]].
+    destruct (adjacent_result_spec s (opp y) (opp h) x A) as [c' [he1 [Hc' [Hr [Hin [_ [_ Hopp]]]]]]].
+    rewrite Hcy in Hc'. inversion Hc'; subst c'.
+    rewrite (resolve_he_member s (opp y) (opp h) (proj1 (In_halfface_opp s y h) Hh)) in Hr. inversion Hr; subst he1.
+    destruct (Hlive x Hin) as [L1 L2]. rewrite opp_involutive in Hopp. apply Hc; assumption.
+Qed.
+
+(* (a'), the part of (a) the involution needs *)
+Definition cell_read_closed (s : mesh) : Prop :=
+  forall x c, x / 2 < nf s -> cell_of s x = Some c -> c_deleted s c = false -> In x (cell_at s c) /\ closed_cell s c.
+
+Lemma cell_read_ok_closed s : cell_read_ok s -> cell_read_closed s.
+Proof. intros H x c A B C. destruct (H x c A B C) as [P [Q _]]. auto. Qed.
+
+(* closed cells give the involution *)
+Lemma adj_involutive_of_read_closed s h L : cell_read_closed s -> slot_sound s h L -> adj_involutive_on s h L.
+Proof.
+  intros Hcr Hs. split.
+  - intros x y Hx F. destruct (Hs x Hx) as [Hlt Hh]. destruct F as [O A].
+    destruct (not_open_cell s x O) as [c [Hc Hd]]. destruct (Hcr x c Hlt Hc Hd) as [Hin Hcl].
+    exact (bwd_of_fwd_closed s h x y c (conj O A) Hc Hcl Hin Hh).
+  - intros x y Hy [O A]. destruct (Hs y Hy) as [Hlt Hh].
     destruct (not_open_cell s (opp y) O) as [c [Hc Hd]].
-    assert (Hlt' : opp y < 2 * nf s) by (rewrite opp_spec; lia).
-    destruct (proj1 (Hfb Hf (opp y) Hlt' c) Hc) as [Hcn [_ Hin]].
-    pose proof (Hcl c Hcn Hd) as Hclc.
+    assert (Hlt' : opp y / 2 < nf s) by (rewrite opp_div2; exact Hlt).
+    destruct (Hcr (opp y) c Hlt' Hc Hd) as [Hin Hclc].
     destruct (adjacent_closed_cell s c (opp y) (opp h) Hclc Hin (proj1 (In_halfface_opp s y h) Hh))
       as [hf' [E [[C1 _] [_ Back]]]].
     rewrite A in E. inversion E; subst hf'. rewrite opp_involutive in Back. split; [|exact Back].
     unfold hf_is_open. rewrite (proj1 (Hclc x C1)). exact Hd.
 Qed.
+Lemma adj_involutive_of_closed s h L : cell_read_ok s -> slot_sound s h L -> adj_involutive_on s h L.
+Proof. intros H. apply adj_involutive_of_read_closed. apply cell_read_ok_closed. exact H. Qed.
 
-(* the walks stay inside the cache *)
-Lemma fwd_stays s h x y :
-  fbu s = true -> fbu_ok s -> cells_ref_live s -> slot_exact s h ->
-  In x (hfs_at s h) -> fwd_link s h x y -> In y (hfs_at s h).
+(* (b'): closure under the walk steps needs completeness only for the halffaces of the cells the walk reads: whatever a
+   read cell contributes to the edge is in the list (an entity in no read cell, e.g. the face being deleted, is free) *)
+Definition cells_feed_slot (s : mesh) (h : nat) (L : list nat) : Prop :=
+  forall z c g, z / 2 < nf s -> cell_of s z = Some c -> c_deleted s c = false -> In g (cell_at s c) ->
+    (In h (halfface s g) -> In g L) /\ (In (opp h) (halfface s g) -> In (opp g) L).
+
+Lemma walk_closed_of_cells s h L : slot_sound s h L -> cells_feed_slot s h L -> walk_closed s h L.
 Proof.
-  intros Hf Hfb Hlive [_ Hex] Hx [O A]. apply Hex in Hx. destruct Hx as [Hlt [_ Hh]]. apply Hex.
-  destruct (adjacent_result_spec s x h (opp y) A) as [c [he1 [Hc [Hr [Hin [_ [_ Hopp]]]]]]].
-  rewrite (resolve_he_member s x h Hh) in Hr. inversion Hr; subst he1.
-  destruct (not_open_cell s x O) as [c' [Hc' Hd]]. rewrite Hc in Hc'. inversion Hc'; subst c'.
-  destruct (proj1 (Hfb Hf x (div2_lt_bound _ _ Hlt) c) Hc) as [Hcn _].
-  destruct (Hlive c (opp y) Hcn Hd Hin) as [L1 L2]. rewrite opp_div2 in L1, L2.
-  split; [exact L1|]. split; [exact L2|]. apply In_halfface_opp. exact Hopp.
+  intros Hs Hfeed. split.
+  - intros x y Hx [O A]. destruct (Hs x Hx) as [Hlt Hh].
+    destruct (not_open_cell s x O) as [c [Hcx Hd]].
+    destruct (adjacent_result_spec s x h (opp y) A) as [c' [he1 [Hc' [Hr [Hin [_ [_ Hopp]]]]]]].
+    rewrite Hcx in Hc'. inversion Hc'; subst c'.
+    rewrite (resolve_he_member s x h Hh) in Hr. inversion Hr; subst he1.
+    destruct (Hfeed x c (opp y) Hlt Hcx Hd Hin) as [_ F]. specialize (F Hopp). rewrite opp_involutive in F. exact F.
+  - intros x y Hy [O A]. destruct (Hs y Hy) as [Hlt Hh].
+    destruct (not_open_cell s (opp y) O) as [c [Hcy Hd]].
+    assert (Hlt' : opp y / 2 < nf s) by (rewrite opp_div2; exact Hlt).
+    destruct (adjacent_result_spec s (opp y) (opp h) x A) as [c' [he1 [Hc' [Hr [Hin [_ [_ Hopp]]]]]]].
+    rewrite Hcy in Hc'. inversion Hc'; subst c'.
+    rewrite (resolve_he_member s (opp y) (opp h) (proj1 (In_halfface_opp s y h) Hh)) in Hr. inversion Hr; subst he1.
+    rewrite opp_involutive in Hopp. destruct (Hfeed (opp y) c x Hlt' Hcy Hd Hin) as [F _]. exact (F Hopp).
 Qed.
 
-Lemma bwd_stays s h x y :
-  fbu s = true -> fbu_ok s -> cells_ref_live s -> slot_exact s h ->
-  In y (hfs_at s h) -> bwd_link s h x y -> In x (hfs_at s h).
+Lemma cells_feed_slot_of_complete s h L : cell_read_ok s -> slot_complete s h L -> cells_feed_slot s h L.
 Proof.
-  intros Hf Hfb Hlive [_ Hex] Hy [O A]. apply Hex in Hy. destruct Hy as [Hlt [_ Hh]]. apply Hex.
-  destruct (adjacent_result_spec s (opp y) (opp h) x A) as [c [he1 [Hc [Hr [Hin [_ [_ Hopp]]]]]]].
-  rewrite (resolve_he_member s (opp y) (opp h) (proj1 (In_halfface_opp s y h) Hh)) in Hr. inversion Hr; subst he1.
-  destruct (not_open_cell s (opp y) O) as [c' [Hc' Hd]]. rewrite Hc in Hc'. inversion Hc'; subst c'.
-  assert (Hlt' : opp y < 2 * nf s) by (rewrite opp_spec; lia).
-  destruct (proj1 (Hfb Hf (opp y) Hlt' c) Hc) as [Hcn _].
-  destruct (Hlive c x Hcn Hd Hin) as [L1 L2].
-  split; [exact L1|]. split; [exact L2|]. rewrite opp_involutive in Hopp. exact Hopp.
+  intros Hcr Hc z c g Hz Hcz Hd Hg. destruct (Hcr z c Hz Hcz Hd) as [_ [_ Hlive]]. destruct (Hlive g Hg) as [L1 L2]. split.
+  - intros Hh. apply Hc; assumption.
+  - intros Hh. apply Hc; rewrite ?opp_div2; try assumption. apply In_halfface_opp. rewrite !opp_involutive. exact Hh.
+Qed.
+
+(* the global invariants give the local hypothesis *)
+Lemma cell_read_ok_of_global s :
+  fbu s = true -> fbu_ok s -> cells_ref_live s -> live_cells_closed s -> cell_read_ok s.
+Proof.
+  intros Hf Hfb Hlive Hcl x c Hlt Hc Hd.
+  destruct (proj1 (Hfb Hf x (div2_lt_bound _ _ Hlt) c) Hc) as [Hcn [_ Hin]].
+  split; [exact Hin|]. split; [exact (Hcl c Hcn Hd)|]. intros hf Hhf. exact (Hlive c hf Hcn Hd Hhf).
 Qed.
 
 (* ================================================================== R2: the list that is written is a permutation *)
@@ -238,23 +301,28 @@ Proof.
   rewrite rev_app_distr. change (x :: r ++ [p]) with ((x :: r) ++ [p]). rewrite last_snoc. reflexivity.
 Qed.
 
-Theorem reorder_list_permutation s e l :
-  fbu s = true -> fbu_ok s -> cells_ref_live s -> slot_exact s (2 * e) -> adj_involutive_at s (2 * e) ->
+(* LOCAL FORM -- only what the walk itself needs of the state: the list at 2e is duplicate-free, closed under the
+   forward and the backward step, and on it the two steps are inverse to each other *)
+Theorem reorder_list_permutation_local s e l :
+  NoDup (hfs_at s (2 * e)) -> walk_closed s (2 * e) (hfs_at s (2 * e)) ->
+  adj_involutive_on s (2 * e) (hfs_at s (2 * e)) ->
   reorder_list s e = Some l -> Permutation l (hfs_at s (2 * e)).
 Proof.
-  intros Hf Hfb Hlive Hslot [Hfb_inv Hbf_inv]. pose proof Hslot as [Hnd Hex].
+  intros Hnd [Hwf Hwb] [Hfb_inv Hbf_inv].
   unfold reorder_list. set (h := 2 * e) in *. set (inc := hfs_at s h) in *. set (n := length inc) in *.
   destruct (n <? 2); [discriminate|].
   destruct inc as [|start rest] eqn:Einc; [discriminate|].
   assert (Hstart : In start (hfs_at s h)) by (fold inc; rewrite Einc; left; reflexivity).
   assert (Hcache : forall z, In z (hfs_at s h) -> In z (start :: rest)).
   { intros z Hz. change (hfs_at s h) with inc in Hz. rewrite Einc in Hz. exact Hz. }
+  assert (Hcache' : forall z, In z (start :: rest) -> In z (hfs_at s h)).
+  { intros z Hz. change (hfs_at s h) with inc. rewrite Einc. exact Hz. }
   destruct (reorder_fwd (n + 2) s n h start start []) as [acc|] eqn:Efwd; [|discriminate].
   destruct (fwd_inv s n h start _ _ _ _ Efwd) as [w [Eacc [Hl [Hne Hend]]]]. simpl in Eacc. subst acc.
   (* everything the forward walk collects is in the cache *)
   assert (Hin_fwd : forall z, In z (start :: w) -> In z (hfs_at s h)).
   { apply (linked_closed (fwd_link s h) (fun z => In z (hfs_at s h)) w start Hstart); [|exact Hl].
-    intros x y Hx F. exact (fwd_stays s h x y Hf Hfb Hlive Hslot Hx F). }
+    intros x y Hx F. apply Hcache'. exact (Hwf x y (Hcache x Hx) F). }
   assert (Hperm : forall L, NoDup L -> (forall z, In z L -> In z (hfs_at s h)) -> length L = n -> Permutation L (start :: rest)).
   { intros L HndL Hincl HlenL. apply NoDup_Permutation_bis; [exact HndL| |].
     - rewrite HlenL. unfold n. apply Nat.le_refl.
@@ -274,7 +342,7 @@ Proof.
     destruct (bwd_inv s n h _ _ _ _ Ebwd) as [rpre [Eacc2 [Hlb Hopen]]]. subst acc2.
     assert (Hin_bwd : forall z, In z (start :: rpre) -> In z (hfs_at s h)).
     { apply (linked_closed (fun x y => bwd_link s h y x) (fun z => In z (hfs_at s h)) rpre start Hstart); [|exact Hlb].
-      intros x y Hx B. exact (bwd_stays s h y x Hf Hfb Hlive Hslot Hx B). }
+      intros x y Hx B. apply Hcache'. exact (Hwb y x (Hcache x Hx) B). }
     assert (Hin_all : forall z, In z (rev rpre ++ start :: w) -> In z (hfs_at s h)).
     { intros z Hz. apply in_app_or in Hz. destruct Hz as [Hz|Hz]; [|apply Hin_fwd; exact Hz].
       apply Hin_bwd. right. apply in_rev. exact Hz. }
@@ -300,56 +368,73 @@ Qed.
 
 Lemma opp_double' e : opp (2 * e) = 2 * e + 1.
 Proof. rewrite opp_spec. lia. Qed.
-Lemma opp_double1 e : opp (2 * e + 1) = 2 * e.
-Proof. rewrite <- opp_double'. apply opp_involutive. Qed.
-
-Lemma slot_member_opp s h x : slot_exact s h -> slot_exact s (opp h) -> (In x (hfs_at s h) <-> In (opp x) (hfs_at s (opp h))).
-Proof.
-  intros [_ E0] [_ E1]. rewrite E0, E1, opp_div2. rewrite <- In_halfface_opp. reflexivity.
-Qed.
 
 Lemma NoDup_map_opp l : NoDup l -> NoDup (map opp l).
 Proof. apply FinFun.Injective_map_NoDup. intros a b. apply opp_inj. Qed.
 
-Lemma slots_same_length s h : slot_exact s h -> slot_exact s (opp h) -> length (hfs_at s (opp h)) = length (hfs_at s h).
+(* LOCAL FORM.  (c): the old list at 2e+1 is a permutation of the mirrored old list at 2e. *)
+Theorem reorder_permutes_local s e :
+  let L := hfs_at s (2 * e) in
+  NoDup L -> walk_closed s (2 * e) L -> adj_involutive_on s (2 * e) L ->
+  Permutation (hfs_at s (2 * e + 1)) (map opp L) ->
+  let s' := reorder_incident_halffaces e s in
+  Permutation (hfs_at s' (2 * e)) L /\
+  Permutation (hfs_at s' (2 * e + 1)) (map opp L) /\
+  Permutation (hfs_at s' (2 * e + 1)) (hfs_at s (2 * e + 1)) /\
+  (hfs_at s' (2 * e) = L /\ hfs_at s' (2 * e + 1) = hfs_at s (2 * e + 1) \/
+   hfs_at s' (2 * e + 1) = rev (map opp (hfs_at s' (2 * e)))).
 Proof.
-  intros S0 S1. apply Nat.le_antisymm.
-  - rewrite <- (map_length opp (hfs_at s (opp h))). apply NoDup_incl_length; [apply NoDup_map_opp; exact (proj1 S1)|].
-    intros y Hy. apply in_map_iff in Hy. destruct Hy as [x [<- Hx]].
-    apply (slot_member_opp s h (opp x) S0 S1). rewrite opp_involutive. exact Hx.
-  - rewrite <- (map_length opp (hfs_at s h)). apply NoDup_incl_length; [apply NoDup_map_opp; exact (proj1 S0)|].
-    intros y Hy. apply in_map_iff in Hy. destruct Hy as [x [<- Hx]].
-    apply (slot_member_opp s h x S0 S1). exact Hx.
+  cbv zeta. intros Hnd Hwc Hinv Hmir.
+  destruct (reorder_list s e) as [l|] eqn:HR.
+  - pose proof (reorder_list_permutation_local s e l Hnd Hwc Hinv HR) as Hp.
+    assert (HL : length l = length (hfs_at s (2 * e))) by (apply Permutation_length; exact Hp).
+    assert (Hlen1 : length (hfs_at s (2 * e + 1)) = length (hfs_at s (2 * e))).
+    { rewrite (Permutation_length Hmir). apply map_length. }
+    destruct (Nat.lt_ge_cases (length l) 2) as [Hsmall|Hbig].
+    + exfalso. unfold reorder_list in HR. rewrite <- HL in HR.
+      destruct (Nat.ltb_spec (length l) 2); [discriminate|lia].
+    + destruct (reorder_write s e l HR HL Hlen1 Hbig) as [W0 W1]. rewrite W0, W1.
+      assert (P1 : Permutation (rev (map opp l)) (map opp (hfs_at s (2 * e)))).
+      { apply (Permutation_trans (Permutation_sym (Permutation_rev _))). apply Permutation_map. exact Hp. }
+      split; [exact Hp|]. split; [exact P1|]. split; [|right; reflexivity].
+      apply (Permutation_trans P1). apply Permutation_sym. exact Hmir.
+  - unfold reorder_incident_halffaces. rewrite HR.
+    split; [apply Permutation_refl|]. split; [exact Hmir|]. split; [apply Permutation_refl|]. left. split; reflexivity.
 Qed.
 
-(* the hypotheses about one edge *)
-Definition reorder_ok_at (s : mesh) (e : nat) : Prop :=
-  slot_exact s (2 * e) /\ slot_exact s (2 * e + 1) /\ adj_involutive_at s (2 * e).
+(* the mirror relation (c) follows from exactness of both slots *)
+Lemma mirror_of_slot_exact s h : slot_exact s h -> slot_exact s (opp h) -> Permutation (hfs_at s (opp h)) (map opp (hfs_at s h)).
+Proof.
+  intros [N0 E0] [N1 E1]. apply NoDup_Permutation; [exact N1|apply NoDup_map_opp; exact N0|].
+  intros y. rewrite in_map_iff, E1. split.
+  - intros [A [B C]]. exists (opp y). rewrite opp_involutive. split; [reflexivity|]. apply E0.
+    rewrite opp_div2. split; [exact A|]. split; [exact B|]. apply In_halfface_opp. rewrite opp_involutive. exact C.
+  - intros [x [<- Hx]]. apply E0 in Hx. destruct Hx as [A [B C]]. rewrite opp_div2.
+    split; [exact A|]. split; [exact B|]. apply (proj1 (In_halfface_opp s x h)). exact C.
+Qed.
 
+Lemma slot_exact_sound_complete s h : slot_exact s h -> slot_sound s h (hfs_at s h) /\ slot_complete s h (hfs_at s h).
+Proof.
+  intros [_ E]. split.
+  - intros x Hx. apply E in Hx. tauto.
+  - intros x A B C. apply E. auto.
+Qed.
+
+(* GLOBAL FORM: exact duplicate-free slots, exact cell cache, closed live cells *)
 Theorem reorder_permutes s e :
-  fbu s = true -> fbu_ok s -> cells_ref_live s -> reorder_ok_at s e ->
+  fbu s = true -> fbu_ok s -> cells_ref_live s -> live_cells_closed s ->
+  slot_exact s (2 * e) -> slot_exact s (2 * e + 1) ->
   Permutation (hfs_at (reorder_incident_halffaces e s) (2 * e)) (hfs_at s (2 * e)) /\
   Permutation (hfs_at (reorder_incident_halffaces e s) (2 * e + 1)) (hfs_at s (2 * e + 1)).
 Proof.
-  intros Hf Hfb Hlive [S0 [S1 Hinv]].
-  destruct (reorder_list s e) as [l|] eqn:HR.
-  - pose proof (reorder_list_permutation s e l Hf Hfb Hlive S0 Hinv HR) as Hp.
-    assert (HL : length l = length (hfs_at s (2 * e))) by (apply Permutation_length; exact Hp).
-    assert (Hlen1 : length (hfs_at s (2 * e + 1)) = length (hfs_at s (2 * e))).
-    { rewrite <- opp_double'. apply slots_same_length; [exact S0|rewrite opp_double'; exact S1]. }
-    destruct (Nat.lt_ge_cases (length l) 2) as [Hsmall|Hbig].
-    + (* reorder_list returns None below two halffaces *)
-      exfalso. unfold reorder_list in HR. rewrite <- HL in HR.
-      destruct (Nat.ltb_spec (length l) 2); [discriminate|lia].
-    + destruct (reorder_write s e l HR HL Hlen1 Hbig) as [W0 W1]. rewrite W0, W1. split; [exact Hp|].
-      apply NoDup_Permutation_bis.
-      * rewrite <- map_rev. apply NoDup_map_opp. apply NoDup_rev.
-        apply (Permutation_NoDup (Permutation_sym Hp)). exact (proj1 S0).
-      * rewrite rev_length, map_length, HL, Hlen1. apply Nat.le_refl.
-      * intros y Hy. apply in_rev in Hy. apply in_map_iff in Hy. destruct Hy as [x [<- Hx]].
-        rewrite <- opp_double'. apply (slot_member_opp s (2 * e) x S0); [rewrite opp_double'; exact S1|].
-        apply (Permutation_in _ Hp). exact Hx.
-  - unfold reorder_incident_halffaces. rewrite HR. split; apply Permutation_refl.
+  intros Hf Hfb Hlive Hcl S0 S1.
+  pose proof (cell_read_ok_of_global s Hf Hfb Hlive Hcl) as Hcr.
+  destruct (slot_exact_sound_complete s _ S0) as [Hs Hc].
+  assert (Hmir : Permutation (hfs_at s (2 * e + 1)) (map opp (hfs_at s (2 * e)))).
+  { rewrite <- opp_double'. apply mirror_of_slot_exact; [exact S0|rewrite opp_double'; exact S1]. }
+  destruct (reorder_permutes_local s e (proj1 S0) (walk_closed_of_complete s _ _ Hcr Hs Hc)
+              (adj_involutive_of_closed s _ _ Hcr Hs) Hmir) as [P0 [_ [P1 _]]].
+  exact (conj P0 P1).
 Qed.
 
 (* ================================================================== R3: the invariant bundle *)
@@ -362,14 +447,6 @@ Definition reorder_inv (s : mesh) : Prop :=
 
 Lemma reorder_inv_slot s h : reorder_inv s -> h < 2 * ne s -> slot_exact s h.
 Proof. intros (He & _ & Hok & Hnd & _) Hh. split; [apply Hnd; exact Hh|apply (Hok He h Hh)]. Qed.
-
-Lemma reorder_inv_ok_at s e : reorder_inv s -> e < ne s -> reorder_ok_at s e.
-Proof.
-  intros I He. pose proof I as (_ & Hf & _ & _ & Hfb & _ & Hcl).
-  assert (S0 : slot_exact s (2 * e)) by (apply reorder_inv_slot; [exact I|lia]).
-  split; [exact S0|]. split; [apply reorder_inv_slot; [exact I|lia]|].
-  apply adj_involutive_of_closed; assumption.
-Qed.
 
 (* observers that do not read inc_hfs *)
 Lemma closed_cell_set_inc_hfs x s c : closed_cell (set_inc_hfs x s) c <-> closed_cell s c.
@@ -385,11 +462,15 @@ Proof.
   { intros h Hh.
     destruct (Nat.eq_dec h (2 * e)) as [E0|N0]; [|destruct (Nat.eq_dec h (2 * e + 1)) as [E1|N1]].
     - assert (Hlt : e < ne s) by lia.
-      destruct (reorder_permutes s e Hf Hfb Hlive (reorder_inv_ok_at s e I Hlt)) as [P0 _]. subst h. split.
+      pose proof (reorder_inv_slot s (2 * e) I) as S0. specialize (S0 ltac:(lia)).
+      pose proof (reorder_inv_slot s (2 * e + 1) I) as S1. specialize (S1 ltac:(lia)).
+      destruct (reorder_permutes s e Hf Hfb Hlive Hcl S0 S1) as [P0 _]. subst h. split.
       + apply (Permutation_NoDup (Permutation_sym P0)). apply Hnd. exact Hh.
       + intros y. split; apply Permutation_in; [exact P0|apply Permutation_sym; exact P0].
     - assert (Hlt : e < ne s) by lia.
-      destruct (reorder_permutes s e Hf Hfb Hlive (reorder_inv_ok_at s e I Hlt)) as [_ P1]. subst h. split.
+      pose proof (reorder_inv_slot s (2 * e) I) as S0. specialize (S0 ltac:(lia)).
+      pose proof (reorder_inv_slot s (2 * e + 1) I) as S1. specialize (S1 ltac:(lia)).
+      destruct (reorder_permutes s e Hf Hfb Hlive Hcl S0 S1) as [_ P1]. subst h. split.
       + apply (Permutation_NoDup (Permutation_sym P1)). apply Hnd. exact Hh.
       + intros y. split; apply Permutation_in; [exact P1|apply Permutation_sym; exact P1].
     - rewrite (reorder_other_slots e s h N0 N1). split; [apply Hnd; exact Hh|reflexivity]. }
@@ -435,4 +516,74 @@ Lemma live_cells_closed_b s :
 Proof.
   rewrite forallb_forall. intros H c Hc Hd. specialize (H c ltac:(apply in_seq; lia)). rewrite Hd in H. simpl in H.
   apply closed_cell_b_spec. exact H.
+Qed.
+
+(* ================================================================== executable forms, witness, example *)
+
+Definition cells_ref_live_b (s : mesh) : bool :=
+  forallb (fun c => c_deleted s c || forallb (fun hf => (hf / 2 <? nf s) && negb (f_deleted s (hf / 2))) (cell_at s c))
+          (seq 0 (nc s)).
+Lemma cells_ref_live_b_sound s : cells_ref_live_b s = true -> cells_ref_live s.
+Proof.
+  unfold cells_ref_live_b. rewrite forallb_forall. intros H c hf Hc Hd Hin.
+  specialize (H c ltac:(apply in_seq; lia)). rewrite Hd in H. simpl in H. rewrite forallb_forall in H.
+  specialize (H hf Hin). apply andb_true_iff in H. destruct H as [A B]. apply Nat.ltb_lt in A.
+  apply negb_true_iff in B. auto.
+Qed.
+
+Definition slots_nodup_b (s : mesh) : bool := forallb (fun h => nodup_b (hfs_at s h)) (seq 0 (2 * ne s)).
+Lemma slots_nodup_b_sound s : slots_nodup_b s = true -> slots_nodup s.
+Proof.
+  unfold slots_nodup_b. rewrite forallb_forall. intros H h Hh. apply nodup_b_spec. apply H. apply in_seq. lia.
+Qed.
+
+Definition reorder_inv_b (s : mesh) : bool :=
+  ebu s && fbu s && ebu_ok_b s && slots_nodup_b s && fbu_ok_b s && cells_ref_live_b s
+  && forallb (fun c => c_deleted s c || closed_cell_b s c) (seq 0 (nc s)).
+Lemma reorder_inv_b_sound s : reorder_inv_b s = true -> reorder_inv s.
+Proof.
+  unfold reorder_inv_b. rewrite !andb_true_iff. intros [[[[[[A B] C] D] E] F] G].
+  split; [exact A|]. split; [exact B|]. split; [apply ebu_ok_b_sound; exact C|].
+  split; [apply slots_nodup_b_sound; exact D|]. split; [apply fbu_ok_b_sound; exact E|].
+  split; [apply cells_ref_live_b_sound; exact F|apply live_cells_closed_b; exact G].
+Qed.
+
+(* WITNESS: without closed cells reorder can lose a halfface.  Five triangles share the edge 0-1; two cells (accepted by
+   add_cell without topology check) contain three of their halffaces each.  add_cell of the second cell re-runs the
+   walk on the edge and writes [6;2;0;2;4]: halfface 2 twice, halfface 8 lost. *)
+Definition nonmanifold_ops : list op :=
+  [AddVertices 7; AddFaceV [0; 1; 2]; AddFaceV [0; 1; 3]; AddFaceV [0; 1; 4]; AddFaceV [0; 1; 5]; AddFaceV [0; 1; 6];
+   AddCell [3; 6; 0] false].
+Definition nonmanifold_before : mesh := run nonmanifold_ops.
+Definition nonmanifold_after : mesh := run (nonmanifold_ops ++ [AddCell [2; 5; 1] false]).
+(* the state add_cell hands to reorder_incident_halffaces 0: both cells registered, cache still in the old order *)
+Definition nonmanifold_mid : mesh := set_inc_hfs (inc_hfs nonmanifold_before) nonmanifold_after.
+
+Lemma reorder_permutation_refuted :
+  ebu_ok_b nonmanifold_before = true /\ fbu_ok_b nonmanifold_before = true /\
+  ebu_ok_b nonmanifold_mid = true /\ slots_nodup_b nonmanifold_mid = true /\ fbu_ok_b nonmanifold_mid = true /\
+  cells_ref_live_b nonmanifold_mid = true /\
+  closed_cell_b nonmanifold_mid 0 = false /\ closed_cell_b nonmanifold_mid 1 = false /\
+  hfs_at nonmanifold_mid 0 = [0; 2; 4; 6; 8] /\
+  hfs_at (reorder_incident_halffaces 0 nonmanifold_mid) 0 = [6; 2; 0; 2; 4] /\
+  ~ Permutation (hfs_at (reorder_incident_halffaces 0 nonmanifold_mid) 0) (hfs_at nonmanifold_mid 0) /\
+  hfs_at nonmanifold_after 0 = [6; 2; 0; 2; 4] /\ ebu_ok_b nonmanifold_after = false.
+Proof.
+  repeat (split; [vm_compute; reflexivity|]).
+  split; [|split; vm_compute; reflexivity].
+  intros P. assert (H : In 8 (hfs_at (reorder_incident_halffaces 0 nonmanifold_mid) 0)).
+  { apply (Permutation_in _ (Permutation_sym P)). vm_compute. tauto. }
+  vm_compute in H. intuition discriminate.
+Qed.
+
+(* EXAMPLE: a reachable state satisfying all hypotheses -- three tetrahedra closing a ring around edge 0 *)
+Definition ring3_state : mesh :=
+  run [AddVertices 5; AddFaceV [0; 1; 3]; AddFaceV [0; 3; 4]; AddFaceV [0; 4; 1]; AddFaceV [1; 4; 3]; AddCell [2; 0; 6; 4] true;
+       AddFaceV [0; 4; 2]; AddFaceV [0; 2; 1]; AddFaceV [1; 2; 4]; AddCell [10; 12; 5; 8] false;
+       AddFaceV [0; 2; 3]; AddFaceV [1; 3; 2]; AddCell [14; 1; 16; 11] false].
+
+Example reorder_inv_satisfiable : reorder_inv ring3_state /\ reorder_inv (reorder_edges [0; 1; 2; 3; 4; 5; 6; 7; 8; 9] ring3_state).
+Proof.
+  assert (I : reorder_inv ring3_state) by (apply reorder_inv_b_sound; vm_compute; reflexivity).
+  split; [exact I|]. apply reorder_edges_inv_preserved. exact I.
 Qed.
